@@ -329,6 +329,16 @@ def Builder.create (resolve : M κ σ → M κ σ → κ) (b : Builder κ σ) : 
     | none => resolve b.config b.overrides
   { b with config := b.config.set l (deepUpdate ((b.config.get l).getD (.map .nil)) b.overrides) }
 
+/-- The loop of ONE `add_config_files(*paths)` call: every file is merged into the builder's configuration
+in turn (`for additional_path in additional_config_files: self.config.update_from_yaml_file(...)`) — there
+is no intermediate configuration in which the files of the call are combined first. -/
+def addFilesCall (valid : κ → Bool) (c : M κ σ) : List (V κ σ) → Except Err (M κ σ)
+  | [] => .ok c
+  | doc :: docs =>
+    match update valid c doc with
+    | .ok c' => addFilesCall valid c' docs
+    | .error e => .error e
+
 /-- Projections of an op list used to state interleaving independence. -/
 def Op.isFile : Op κ σ → Bool
   | .addFile _ => true
